@@ -182,6 +182,17 @@ def _seed_count(b, defs, op):
                 nm = callee(d[2])[2]
                 if nm in ("derivative", "derivative1", "derivative2"):      # num-dual seeding builders
                     n += 1
+                if nm == "new" and "num_dual" in str(callee(d[2])[0]):
+                    # explicit constructor `Dual3::new(re, v1, v2, v3)` / `HyperDual::new(re, eps1, eps2, eps1eps2)`: every
+                    # first-order part set to one is a seed
+                    for a in d[2]["args"][1:]:
+                        if a.get("k") == "const" and str(a.get("f")) in ("1e0", "1"):
+                            n += 1
+                        elif a.get("k") in ("copy", "move"):
+                            for d3 in defs.of(a["place"]["l"]):
+                                if d3[0] == "call" and callee(d3[2])[2] == "one":
+                                    n += 1
+                    continue
                 for a in d[2]["args"]:
                     if a.get("k") in ("copy", "move"):
                         work.append(a["place"]["l"])
